@@ -91,20 +91,19 @@ Proof. intros [L E]. split; [exact L|]. intros r Hr _. now apply E. Qed.
 
 Lemma frame_same s : hframe s s /\ o_backup (s_cur s) = o_backup (s_cur s) /\ exists pre : list mobj, s_others s = pre ++ s_others s.
 Proof. split; [split; [lia | auto]|]. split; [reflexivity|]. exists []. reflexivity. Qed.
+Lemma sub_step_frame_g rh ats s : W s ->
+  hframe s (fst (sub_step_g rh ats s)) /\ o_backup (s_cur (fst (sub_step_g rh ats s))) = o_backup (s_cur s) /\
+  exists pre, s_others (fst (sub_step_g rh ats s)) = pre ++ s_others s.
+Proof.
+  intros Ws. unfold sub_step_g. destruct s as [h o others]. cbn [s_heap s_cur s_others].
+  destruct (substructure_g rh ats h o) as [[[h2 o2] e]|err] eqn:E; [|apply frame_same].
+  destruct (W_sub_g rh ats h o others h2 o2 e Ws E) as [X _].
+  destruct e as [e|]; cbn [fst]; (split; [now apply (hext_frame (mkS h o others))|]); (split; [reflexivity|]); [exists [] | exists [o2]]; reflexivity.
+Qed.
 Lemma sub_step_frame ats s : W s ->
   hframe s (fst (sub_step ats s)) /\ o_backup (s_cur (fst (sub_step ats s))) = o_backup (s_cur s) /\
   exists pre, s_others (fst (sub_step ats s)) = pre ++ s_others s.
-Proof.
-  intros Ws. pose proof (W_cur s Ws) as Uc. unfold sub_step.
-  destruct (substructure ats (s_heap s) (s_cur s)) as [[[h2 o2] e]|err] eqn:E.
-  - destruct (sub_spec _ _ _ _ _ _ (proj1 (proj1 Uc)) E) as [h1 [sub0 [X [I0 [C0 [B0 [_ [Fr R]]]]]]]].
-    pose proof (fix_both_good h1 sub0 I0) as G. rewrite R in G. destruct G as [_ [HL [Un _]]].
-    assert (hext (s_heap s) h2) as X2.
-    { destruct X as [Lx E1]. split; [destruct HL; lia|]. intros r Hr. rewrite Un; [apply E1; exact Hr | lia |].
-      intros Hi. apply Fr in Hi. lia. }
-    destruct e as [e|]; cbn [fst]; (split; [now apply hext_frame|]); (split; [reflexivity|]); [exists [] | exists [o2]]; reflexivity.
-  - cbn [fst]. split; [split; [lia | auto]|]. split; [reflexivity|]. exists []. reflexivity.
-Qed.
+Proof. apply sub_step_frame_g. Qed.
 
 Lemma split_loop_frame cs : forall s old, W s -> (exists pre0, s_others s = pre0 ++ old) ->
   hext (s_heap s) (s_heap (fst (split_loop cs s old))) /\ s_cur (fst (split_loop cs s old)) = s_cur s /\
@@ -153,6 +152,7 @@ Proof.
     assert (s_heap (fst (lift (read Kcc) s)) = s_heap s /\ s_others (fst (lift (read Kcc) s)) = s_others s) as [Eh Eo]
       by (destruct s; split; reflexivity).
     rewrite Eh in *. split; [split; [exact Lx | intros r Hr _; now apply Ex]|]. split; [rewrite Cx; exact B1|]. exists pre. now rewrite Px, Eo.
+  - now apply sub_step_frame_g.
   - apply L, flush_good.
   - apply L, set_charge_good.
   - apply L, set_radical_good.
